@@ -3,6 +3,7 @@ package props
 import (
 	"fmt"
 	"go/ast"
+	"go/constant"
 	"go/token"
 	"go/types"
 	"sort"
@@ -1036,7 +1037,7 @@ func c10(p *core.Prog, res *core.Result) {
 	res.Explanation = "C10 (sibling agreement over the badger, bolt, level and pebble adapters): S1 existence outcomes — an abstract evaluation over go/ssa (domain nil/non-nil/true/false) of every HasKey and Get, with the library lookup call given its 'found' and 'absent' outcomes from a table: HasKey returns true/false accordingly, Get returns a nil/non-nil error accordingly, and no method is called on a nil interface value in either outcome; " +
 		"S2 validity state — where Valid() reads cached receiver fields, each of Seek, SeekReverse and Next assigns all of them on every path to return (an iterator whose Valid() asks the library is exempt); " +
 		"S3 no commit after a failed callback — in Update/BulkWrite every library Commit/Flush is reached only where the callback returned nil and is never deferred unconditionally; S3b the Set/Delete of every transaction type write to a transaction or batch object, not to the store handle; " +
-		"S4 every library iterator local is positioned before Valid/Key/Value/Item; S5 every driver name the server's StartDriver asks for is registered by a package the server imports."
+		"S6 a block-wise DeletePrefix repeats whenever a pass collected its maximum number of keys (continuation evaluated at the block bound); S7 Seek/SeekReverse hand the caller's key itself to the library positioning call; S4 every library iterator local is positioned before Valid/Key/Value/Item; S5 every driver name the server's StartDriver asks for is registered by a package the server imports."
 	res.NotDecided = []string{"key order and the landing position of forward/reverse seeks", "completeness of prefix deletes beyond 'the loop can run'", "cross-driver equality of traversal results", "behaviour of the store libraries themselves"}
 	res.Assumptions = []string{"outcome tables of the store libraries' lookup calls (props/c10.go c10Lookups), confirmed from the libraries' documentation", "bolt DB.Update/View, badger DB.Update/View roll back when the callback returns an error"}
 	res.Rule("S1", "HasKey/Get outcomes agree with the library's found/absent outcome; no nil interface call", 20)
@@ -1109,6 +1110,198 @@ func c10(p *core.Prog, res *core.Result) {
 		c10positioned(p, res, "S4", fi)
 	}
 	c10registration(p, res, "S5")
+	res.Rule("S6", "block-wise prefix deletes repeat whenever a block came back full", 3)
+	res.Rule("S7", "positioning methods hand the caller's key to the library unchanged (sibling agreement)", 8)
+	for _, st := range stores {
+		if fi := p.Method(st, "DeletePrefix"); fi != nil && fi.Decl.Body != nil {
+			c10blockLoop(p, res, fi, "S6")
+		}
+	}
+	for _, n := range p.Implementers(itIface) {
+		if !inKvi(n) {
+			continue
+		}
+		for _, m := range []string{"Seek", "SeekReverse"} {
+			if fi := p.Method(n, m); fi != nil && fi.Decl.Body != nil {
+				c10seekArg(p, res, fi, "S7")
+			}
+		}
+	}
+}
+
+// c10blockLoop (S6): `for flag := true; flag; { … collect while len(wb) < K … delete … }`.
+// The pass collects at most K keys; when it collected K there may be more, so
+// the continuation flag must be true for len(wb) == K.  The flag is either set
+// to true per deleted key (true iff len(wb) >= 1) or assigned an expression
+// over len(wb), which is evaluated at len(wb) = K.
+func c10blockLoop(p *core.Prog, res *core.Result, fi *core.FuncInfo, rule string) {
+	info := fi.Pkg.TypesInfo
+	fkey := core.FuncKey(fi.Obj)
+	var outer *ast.ForStmt
+	ast.Inspect(fi.Decl.Body, func(n ast.Node) bool {
+		if fs, ok := n.(*ast.ForStmt); ok && outer == nil {
+			if _, isId := ast.Unparen(fs.Cond).(*ast.Ident); isId && fs.Cond != nil {
+				outer = fs
+			}
+		}
+		return true
+	})
+	if outer == nil {
+		res.OKTrivial(rule, fkey+"|block loop", p.Pos(fi.Decl.Pos()), "no block-wise loop: the prefix is deleted in one pass")
+		return
+	}
+	res.Fn(fkey)
+	flag := info.Uses[ast.Unparen(outer.Cond).(*ast.Ident)]
+	key := fkey + "|block loop"
+	// collection loop: a for statement whose condition contains len(X) < K
+	var wb types.Object
+	var bound ast.Expr
+	ast.Inspect(outer.Body, func(n ast.Node) bool {
+		fs, ok := n.(*ast.ForStmt)
+		if !ok || fs.Cond == nil || bound != nil {
+			return true
+		}
+		ast.Inspect(fs.Cond, func(y ast.Node) bool {
+			be, ok := y.(*ast.BinaryExpr)
+			if !ok || be.Op != token.LSS {
+				return true
+			}
+			if c, ok := ast.Unparen(be.X).(*ast.CallExpr); ok && isBuiltin2(info, c, "len") && len(c.Args) == 1 {
+				if o := defOrUse(info, c.Args[0]); o != nil {
+					wb, bound = o, be.Y
+				}
+			}
+			return true
+		})
+		return true
+	})
+	if wb == nil {
+		res.Unres(rule, key, p.Pos(outer.Pos()), "collection loop with a `len(block) < K` bound not found")
+		return
+	}
+	// constants of the function (deleteBlockSize := 10000)
+	consts := map[types.Object]float64{}
+	ast.Inspect(fi.Decl.Body, func(n ast.Node) bool {
+		if as, ok := n.(*ast.AssignStmt); ok && as.Tok == token.DEFINE && len(as.Lhs) == 1 && len(as.Rhs) == 1 {
+			if tv, ok := info.Types[as.Rhs[0]]; ok && tv.Value != nil {
+				if f, ok := constant.Float64Val(constant.ToFloat(tv.Value)); ok || tv.Value.Kind() == constant.Int {
+					if o := defOrUse(info, as.Lhs[0]); o != nil {
+						consts[o] = f
+					}
+				}
+			}
+		}
+		return true
+	})
+	env := ordEnv{}
+	alias := func(e ast.Expr) string {
+		e = ast.Unparen(e)
+		if c, ok := e.(*ast.CallExpr); ok && isBuiltin2(info, c, "len") && len(c.Args) == 1 {
+			if defOrUse(info, c.Args[0]) == wb {
+				return "n"
+			}
+		}
+		if o := defOrUse(info, e); o != nil {
+			if v, ok := consts[o]; ok {
+				env["c:"+o.Name()] = v
+				return "c:" + o.Name()
+			}
+		}
+		return ""
+	}
+	// prime the constant aliases
+	ast.Inspect(outer, func(n ast.Node) bool {
+		if e, ok := n.(ast.Expr); ok {
+			alias(e)
+		}
+		return true
+	})
+	K, ok := ordEvalNum(info, bound, env, alias)
+	if !ok || K < 1 {
+		res.Unres(rule, key, p.Pos(bound.Pos()), "block bound is not a constant expression: "+types.ExprString(bound))
+		return
+	}
+	env["n"] = K
+	// assignments to the flag inside the outer loop
+	cont, decided := false, false
+	var why string
+	ast.Inspect(outer.Body, func(n ast.Node) bool {
+		as, ok := n.(*ast.AssignStmt)
+		if !ok || len(as.Lhs) != 1 || len(as.Rhs) != 1 || defOrUse(info, as.Lhs[0]) != flag {
+			return true
+		}
+		// inside a range over the block: executed once per collected key
+		perKey := false
+		ast.Inspect(outer.Body, func(m ast.Node) bool {
+			if rs, ok := m.(*ast.RangeStmt); ok && defOrUse(info, rs.X) == wb && as.Pos() >= rs.Body.Pos() && as.End() <= rs.Body.End() {
+				perKey = true
+			}
+			return true
+		})
+		v, isConst := info.Types[as.Rhs[0]]
+		switch {
+		case isConst && v.Value != nil && v.Value.Kind() == constant.Bool:
+			if constant.BoolVal(v.Value) {
+				if perKey || true {
+					cont, decided = cont || (perKey && K >= 1) || !perKey, true
+					if perKey {
+						why = "set per deleted key"
+					}
+				}
+			}
+		default:
+			if b, ok := ordEvalBool(info, as.Rhs[0], env, alias); ok {
+				decided = true
+				cont = cont || b
+				why = fmt.Sprintf("%s evaluates to %v for a full block (len = %v)", types.ExprString(as.Rhs[0]), b, K)
+			} else {
+				why = "continuation expression not evaluable: " + types.ExprString(as.Rhs[0])
+			}
+		}
+		return true
+	})
+	switch {
+	case !decided:
+		res.Unres(rule, key, p.Pos(outer.Pos()), "continuation of the block loop not understood ("+why+")")
+	case !cont:
+		res.Bad(rule, key, p.Pos(outer.Pos()), fmt.Sprintf("%s: a pass collects at most %v keys (%s); when it collected that many the loop does not repeat (%s): everything beyond the first block stays in the store, while the other drivers delete the whole prefix", fkey, K, types.ExprString(bound), why))
+	default:
+		res.OK(rule, key, p.Pos(outer.Pos()), fmt.Sprintf("repeats whenever a pass collected the maximum of %v keys (%s)", K, why))
+	}
+}
+
+// c10seekArg (S7): the library positioning call receives the method's own key parameter.
+func c10seekArg(p *core.Prog, res *core.Result, fi *core.FuncInfo, rule string) {
+	info := fi.Pkg.TypesInfo
+	fkey := core.FuncKey(fi.Obj)
+	sig := fi.Obj.Type().(*types.Signature)
+	if sig.Params().Len() != 1 {
+		return
+	}
+	param := sig.Params().At(0)
+	res.Fn(fkey)
+	n := 0
+	ast.Inspect(fi.Decl.Body, func(x ast.Node) bool {
+		c, ok := x.(*ast.CallExpr)
+		if !ok {
+			return true
+		}
+		names := []string{}
+		for k := range c10positioning {
+			names = append(names, k)
+		}
+		if _, ok := isLibraryMethodCall(info, c, names...); !ok || len(c.Args) != 1 {
+			return true
+		}
+		n++
+		key := fmt.Sprintf("%s|library seek#%d", fkey, n)
+		if defOrUse(info, c.Args[0]) == param {
+			res.OK(rule, key, p.Pos(c.Pos()), "the library is positioned at the caller's key itself")
+		} else {
+			res.Bad(rule, key, p.Pos(c.Pos()), fmt.Sprintf("%s positions the library iterator at %s instead of the caller's key %s: the sibling drivers seek to the key itself, so this driver lands on a different entry for the same request (e.g. a padded key makes a reverse seek start above every key that extends the requested one)", fkey, types.ExprString(c.Args[0]), param.Name()))
+		}
+		return true
+	})
 }
 
 // c10registration: names asked for by StartDriver are registered by linked packages.
